@@ -353,8 +353,8 @@ func init() {
 			"distinct_nontrivial = distinct (side, length bucket, failure injected / truncated) classes",
 		Assumptions: []string{"a write primitive can only fail through WriteFixedLenString with a value longer than its width; a read fails when its value is not completely present"},
 		Stages: []*fw.Stage{
-			{Name: "writer", N: q(60000, 4000000), Run: c20Writer},
-			{Name: "reader", N: q(60000, 4000000), Run: c20Reader},
+			{Name: "writer", N: q(60000, 40000000), Run: c20Writer},
+			{Name: "reader", N: q(60000, 40000000), Run: c20Reader},
 		},
 	})
 }
